@@ -193,7 +193,8 @@ func TestC17(t *testing.T) {
 				}
 				return ves, del
 			}
-			s, err := k.VestingsSummary(sdk.WrapSDKContext(v.Ctx), &vestingtypes.QueryVestingsSummaryRequest{})
+			s := &vestingtypes.QueryVestingsSummaryResponse{}
+			err := QueryRouted(v.App, v.Ctx, "/chain4energy.c4echain.cfevesting.Query/VestingsSummary", &vestingtypes.QueryVestingsSummaryRequest{}, s)
 			if err != nil {
 				t.Fatalf("VestingsSummary: %v", err)
 			}
@@ -202,7 +203,8 @@ func TestC17(t *testing.T) {
 			if !s.VestingInPoolsAmount.Equal(mb) || !s.VestingInAccountsAmount.Equal(ves) || !s.DelegatedVestingAmount.Equal(del) || !s.VestingAllAmount.Equal(mb.Add(ves)) {
 				t.Fatalf("%s: VestingsSummary %+v, recomputed pools=%s accounts=%s delegated=%s\nhistory: %s", what, *s, mb, ves, del, jsonStr(hist))
 			}
-			g, err := k.GenesisVestingsSummary(sdk.WrapSDKContext(v.Ctx), &vestingtypes.QueryGenesisVestingsSummaryRequest{})
+			g := &vestingtypes.QueryGenesisVestingsSummaryResponse{}
+			err = QueryRouted(v.App, v.Ctx, "/chain4energy.c4echain.cfevesting.Query/GenesisVestingsSummary", &vestingtypes.QueryGenesisVestingsSummaryRequest{}, g)
 			if err != nil {
 				t.Fatalf("GenesisVestingsSummary: %v", err)
 			}
